@@ -42,6 +42,9 @@ pub struct Registry {
     /// 1-based index of the user-code invocation that must panic (0 = none)
     pub fault_at: u32,
     pub fault_fired: bool,
+    /// bulk mode (amortisation push run): values are not tracked individually, ids cycle
+    pub untracked: bool,
+    pub bulk_counter: u32,
 }
 
 impl Registry {
@@ -57,6 +60,8 @@ impl Registry {
             user_calls: 0,
             fault_at: 0,
             fault_fired: false,
+            untracked: false,
+            bulk_counter: 0,
         }
     }
     fn err(&mut self, e: RegErr) {
@@ -190,6 +195,7 @@ pub fn reg_create(size: usize) -> u16 {
         with_reg(|r| { r.zst_creates += 1; r.zst_live += 1; });
         return 0;
     }
+    if let Some(id) = with_reg(|r| if r.untracked { let id = (r.bulk_counter % 199) as u16; r.bulk_counter += 1; Some(id) } else { None }) { return id; }
     let id = fresh_id();
     with_reg(|r| { r.state[id as usize] = IdState::Live; r.creates += 1; });
     id
@@ -224,6 +230,7 @@ fn reg_drop(size: usize, bytes: &[u8]) {
     let id = read_id(bytes);
     let ok = check_canary(bytes);
     with_reg(|r| {
+        if r.untracked { return; }
         r.drops += 1;
         if (id as usize) >= MAX_IDS || r.state[id as usize] == IdState::Never {
             r.err(RegErr::GarbageDrop(id));
